@@ -13,7 +13,9 @@ contract("pint.util:to_units_container",
              {"_name": "empty_dict", "unit_like": "Opaque", "registry": "Ref[GenericPlainRegistry]",
               "_ensures": {"dimensionless": "fresh(result) and wf(result) and names_ok(result) and exact_class(result, 'UnitsContainer') "
                                             "and dims_ok(result, registry) and AllMult(registry, result) "
-                                            "and forall[Str](lambda q: view(result)[q] == 0)"}},
+                                            "and forall[Str](lambda q: view(result)[q] == 0)",
+                           # consequences of having no entries (DimS / FacS over the empty support), stated for the solvers
+                           "no_dimension": "forall[Str](lambda b: DimOf(b, result) == 0)", "unit_factor": "FacOf(result, 1) == 1"}},
          ],
          modifies=[], trusted=True,
          note="string branch: ParserHelper.from_string / registry.parse_units_as_container (the parser, C07/C08); "
